@@ -376,7 +376,8 @@ static int vi_prefix(void)
 	int c = vi_read();
 	if ((c >= '1' && c <= '9')) {
 		while (isdigit(c)) {
-			n = n * 10 + c - '0';
+			if (n < 100000000)	/* saturate: no overflow */
+				n = n * 10 + c - '0';
 			c = vi_read();
 		}
 	}
@@ -484,10 +485,17 @@ static int vi_search(int cmd, int cnt, int *row, int *off)
 	return failed != NULL;
 }
 
+/* the product of the two counts of a command, saturated */
+static int vi_count(void)
+{
+	long n = (long) (vi_arg1 ? vi_arg1 : 1) * (vi_arg2 ? vi_arg2 : 1);
+	return n < 1000000000 ? n : 1000000000;
+}
+
 /* read a line motion */
 static int vi_motionln(int *row, int cmd)
 {
-	int cnt = (vi_arg1 ? vi_arg1 : 1) * (vi_arg2 ? vi_arg2 : 1);
+	int cnt = vi_count();
 	int c = vi_read();
 	int mark, mark_row, mark_off;
 	switch (c) {
@@ -571,7 +579,7 @@ static int vi_curword(struct lbuf *lb, char *dst, int len, int row, int off, cha
 static int vi_motion(int *row, int *off)
 {
 	char cw[120], kw[128];
-	int cnt = (vi_arg1 ? vi_arg1 : 1) * (vi_arg2 ? vi_arg2 : 1);
+	int cnt = vi_count();
 	char *ln = lbuf_get(xb, *row);
 	int dir = dir_context(ln ? ln : "");
 	int mark, mark_row, mark_off;
